@@ -18,6 +18,7 @@ TRUSTED = ("object identity is a fact about CPython allocation: it is observed (
 
 def run(ctx):
     g = gtirb_from_repo.load()
+    ctx.scope = {"allow": ("roundtrip:aux-identity", "roundtrip:identity", "roundtrip:load-raised", "accepted:", "wrong-class:", "reader:incoherent", "reader:hang", "reader:outcome", "reader:model-died", "tables:")}
     cov = irgen.Cov(ctx)
     enums = protocheck.schema_enums()
     n_rt, n_r, n_f = (40, 60, 25) if ctx.quick else (800, 1500, 400)
